@@ -85,6 +85,7 @@ static void worker(int T, int tid, int round, uint64_t seed, int passes, std::se
             if (nz) { history_noise(nz, r, ip, tp, res, scratch); pred = nz; }
             if (r.below(4) == 0) sched_yield();
             int f = ++in_flight; int m = max_in_flight.load(); while (f > m && !max_in_flight.compare_exchange_weak(m, f)) {}
+            VH_OP("thread:%s:T=%d", jobs[ji].name().c_str(), T);
             run_job(jobs[ji], ob);
             --in_flight;
             comparisons++;
